@@ -1,6 +1,8 @@
 import PhyVerif.Model.C12
 import PhyVerif.Spec.C12
 import PhyVerif.Lemmas.C12
+import PhyVerif.Model.C12b
+import PhyVerif.Lemmas.C12b
 /-!
 # C12 — merged channel and template arrays are block-structured by probe
 Only property theorems + non-vacuity examples; proofs in `Lemmas/C12.lean`.
@@ -73,6 +75,21 @@ theorem pc_ind_in_block (maps : List (List Nat)) (tables : List (List (List Nat)
     (channelProbes maps).getD c' maps.length = k ∧
     (mergeChannelMaps maps).getD c' 0 = (maps.getD k []).getD c 0 + (chanOffsets maps).getD k 0 :=
   Lemmas.pc_ind_in_block maps tables k r j hk hlen hr hj hc
+
+/-- Template-index tables (`template_feature_ind`) land in the merged template numbering, with the
+merger's own template offsets (C11): an entry naming template `c` of probe `k` becomes `c + offset_k`,
+which lies in probe `k`'s block of merged template ids and in no other probe's block. -/
+theorem tf_ind_in_block (ids : List (List Nat)) (counts : List Nat) (tables : List (List (List Nat)))
+    (k r j : Nat) (hk : k < ids.length) (hlenc : counts.length = ids.length) (hlent : tables.length = ids.length)
+    (hr : r < (tables.getD k []).length) (hj : j < ((tables.getD k []).getD r []).length)
+    (hc : ((tables.getD k []).getD r []).getD j 0 < (C11.templateSizes ids counts).getD k 0) :
+    let c := ((tables.getD k []).getD r []).getD j 0
+    let c' := ((mergeTfInd ids counts tables).getD (prefixSum (tables.map List.length) k + r) []).getD j 0
+    let off := fun i => (C11.templateOffsets ids counts).getD i 0
+    let size := fun i => (C11.templateSizes ids counts).getD i 0
+    c' = c + off k ∧ off k ≤ c' ∧ c' < off k + size k ∧
+    ∀ l, l < ids.length → l ≠ k → ¬ (off l ≤ c' ∧ c' < off l + size l) :=
+  Lemmas.tf_ind_in_block ids counts tables k r j hk hlenc hlent hr hj hc
 
 /-- Whitening / similarity matrices: block-diagonal with the per-probe matrices as blocks. -/
 theorem blockDiag_entries (ms : List (List (List α))) (hsq : ∀ m ∈ ms, ∀ row ∈ m, row.length = m.length)
